@@ -198,7 +198,7 @@ End Idents.
 (* ====================================================================== a tiny table set *)
 Module TinyM.
 (* element names = element definitions = data types:
-     0 AUTOSAR (splittable)  1 AR-PACKAGES (splittable)  2 AR-PACKAGE (named)  3 SHORT-NAME  4 ELEMENTS (splittable, bag)
+     0 AUTOSAR (splittable)  1 AR-PACKAGES (splittable, bag)  2 AR-PACKAGE (named)  3 SHORT-NAME  4 ELEMENTS (splittable, bag)
      5 SYSTEM (named, NOT splittable)  6 SPROPS (named)  7 UNIT (named)
    versions: bit 1 and bit 2 (LATEST = 2); no attributes, no references, no DEFINITION-REF (name 99) *)
 Definition nAUTOSAR := 0. Definition nPKGS := 1. Definition nPKG := 2. Definition nSHORT := 3.
@@ -231,7 +231,7 @@ Definition tiny : tables := {|
   n_version_info := 200;
   T_datatypes := fun i => match i with
     | 0 => Some (mkD 0 1 0 MSequence)
-    | 1 => Some (mkD 1 2 0 MSequence)
+    | 1 => Some (mkD 1 2 0 MBag)
     | 2 => Some (mkD 2 5 0 MSequence)
     | 3 => Some (mkD 5 5 1 MCharacters)
     | 4 => Some (mkD 5 7 0 MBag)
